@@ -34,11 +34,11 @@ func (g *G) NetworkPolicy() isaac.NetworkPolicy {
 		return p
 	}
 
-	p.SetMaxOperationsInProposal(uint64(1 + g.R.Intn(1000)))
-	p.SetSuffrageCandidateLifespan(base.Height(1 + g.R.Intn(1<<20)))
-	p.SetSuffrageCandidateLimiterRule(isaac.NewFixedSuffrageCandidateLimiterRule(uint64(1 + g.R.Intn(9))))
-	p.SetMaxSuffrageSize(uint64(1 + g.R.Intn(99)))
-	p.SetSuffrageExpelLifespan(base.Height(1 + g.R.Intn(1000)))
+	p.SetMaxOperationsInProposal(g.bCount(uint64(1 + g.R.Intn(1000))))
+	p.SetSuffrageCandidateLifespan(g.bHeight(base.Height(1 + g.R.Intn(1<<20))))
+	p.SetSuffrageCandidateLimiterRule(isaac.NewFixedSuffrageCandidateLimiterRule(g.bCount(uint64(1 + g.R.Intn(9)))))
+	p.SetMaxSuffrageSize(g.bCount(uint64(1 + g.R.Intn(99))))
+	p.SetSuffrageExpelLifespan(g.bHeight(base.Height(1 + g.R.Intn(1000))))
 	p.SetEmptyProposalNoBlock(g.R.Intn(2) == 0)
 
 	return p
@@ -200,7 +200,7 @@ func (g *G) SuffrageNodesStateValue() isaac.SuffrageNodesStateValue {
 func (g *G) SuffrageCandidateStateValue() isaac.SuffrageCandidateStateValue {
 	start := g.Height()
 
-	return isaac.NewSuffrageCandidateStateValue(g.Node(), start, start+base.Height(1+g.R.Intn(1000)))
+	return isaac.NewSuffrageCandidateStateValue(g.Node(), start, g.bHeight(start+base.Height(1+g.R.Intn(1000))))
 }
 
 func (g *G) SuffrageCandidatesStateValue() isaac.SuffrageCandidatesStateValue {
@@ -260,7 +260,7 @@ func (g *G) Time() time.Time {
 		ms = 0
 	}
 
-	return time.Unix(1_600_000_000+g.R.Int63n(200_000_000), ms*1_000_000).UTC()
+	return g.bTime(time.Unix(1_600_000_000+g.R.Int63n(200_000_000), ms*1_000_000).UTC())
 }
 
 func (g *G) Manifest() isaac.Manifest {
